@@ -11,6 +11,7 @@ import BV.C07.CacheKey
 import BV.C07.ExpectLemmas
 import BV.C07.CacheLemmas
 import BV.Generated.C07
+set_option linter.unusedSimpArgs false
 namespace BV.C07
 open Spec Model
 
@@ -139,6 +140,39 @@ theorem taproot_api_eq_spec (H : Bytes → Bytes) (ht : UInt32) (tx : Tx) (fetch
 /-- the taproot digest is defined exactly for hash types {0,1,2,3,0x81,0x82,0x83} -/
 theorem taproot_hashtype_valid_iff (ht : UInt32) :
     isValidTaprootSigHash ht = true ↔ ht ∈ validTaprootHashTypes := Lemmas.valid_iff ht
+
+
+/-- Legacy with an index that is not an input (never done by the interpreter, possible through the
+raw function): ANYONECANPAY slices `TxIn[idx:idx+1]` out of range -- a Go panic -- unless the
+SIGHASH_SINGLE early return fires first. -/
+theorem legacy_idx_out_of_range_panics (H : Bytes → Bytes) (sc : Bytes) (ht : UInt32) (tx : Tx)
+    (idx : Nat) (hi : tx.ins.length ≤ idx) (ha : (ht &&& 0x80) ≠ 0)
+    (hs : ¬ ((ht &&& 0x1f) = 3 ∧ idx ≥ tx.outs.length)) :
+    calcSignatureHashCore H sc ht tx idx = .panic := by
+  unfold calcSignatureHashCore
+  simp only [hs, if_false, ha, ne_eq, not_false_eq_true, if_true]
+  by_cases h2 : (ht &&& 0x1f) = 2
+  · simp [h2, hi]
+  · by_cases h3 : (ht &&& 0x1f) = 3
+    · simp [h2, h3, hi]
+    · simp [h2, h3, hi]
+
+/-- Signer and verifier compute the same BIP143 digest: the helper signs
+`calcWitnessSignatureHashRaw(sub, midstate, hashType)` and appends `byte(hashType)`; the interpreter
+recomputes with that byte. For a one-byte hash type and any midstate computed for a transaction
+with a v0 input (supplied or not on either side) the two digests coincide. -/
+theorem signer_verifier_same_digest_wit (H : Bytes → Bytes) (sub : Bytes) (ht : UInt32) (tx : Tx)
+    (idx : Nat) (amt : UInt64) (fetch : OutPoint → TxOut) (supplied : Option SigHashes)
+    (hb : ht.toNat < 256)
+    (hs : supplied = none ∨ supplied = some (newTxSigHashes H tx fetch)) :
+    engineWitnessDigest H supplied sub (UInt32.ofNat (UInt8.ofNat ht.toNat).toNat) tx idx amt fetch =
+      calcWitnessSignatureHashRaw H sub (newTxSigHashes H tx fetch) ht tx idx amt := by
+  have hht : UInt32.ofNat (UInt8.ofNat ht.toNat).toNat = ht := by
+    apply UInt32.toNat_inj.mp
+    simp [UInt8.toNat_ofNat', Nat.mod_eq_of_lt hb]
+  rw [hht]
+  rcases hs with rfl | rfl <;> rfl
+
 
 /-! ### cache = no cache -/
 
